@@ -831,13 +831,15 @@ impl<'a, V: VariationInfo> ValidationCtx<'a, V> {
         // and not anywhere else. Instead of a bool we store the decl range,
         // for error reporting
         let mut has_reset_lookup_flag = None;
-        if let Some(_prev) = self.lookup_defs.insert(name.text.clone(), name.clone()) {
+        if self.lookup_defs.contains_key(&name.text) {
             //TODO: annotate with previous location
             self.error(
                 name.range(),
                 format!("A lookup named '{}' has already been defined", name.text),
             );
         }
+        // NOTE: the name is only defined at the end of the block, so that
+        // a block cannot refer to itself.
         for item in node.statements() {
             if item.kind().is_rule() {
                 if let Some(lookup_flag) = has_reset_lookup_flag.take() {
@@ -910,6 +912,7 @@ impl<'a, V: VariationInfo> ValidationCtx<'a, V> {
                 );
             }
         }
+        self.lookup_defs.insert(name.text.clone(), name.clone());
     }
 
     fn validate_gpos_statement(&mut self, node: &typed::GposStatement) {
